@@ -11,13 +11,18 @@ from harness import tlc
 from harness.pool import Pool
 
 ORG = {"low": (0x008000, 0x01FFFD, 0x028000), "low2": (0x808000, 0x81FFFD, 0x828000), "high": (0xC00000, 0xC0FFFD, 0xC10000)}
-DEFS = [{}, {"DEFV": 0x1234}, {"DEFV": 0x8001, "DEFF": 1, "DEFN": -0x10}]
+DEFS = [{}, {"DEFV": 0x1234}, {"DEFV": 0x8001, "DEFF": 1, "DEFN": -0x10, "DEFZ": 0}]
 # the text each value is given as on the command line (decimal, hexadecimal, signed)
-DEF_TEXTS = [{}, {"DEFV": "4660"}, {"DEFV": "0x8001", "DEFF": "1", "DEFN": "-0x10"}]
+DEF_TEXTS = [{}, {"DEFV": "4660"}, {"DEFV": "0x8001", "DEFF": "1", "DEFN": "-0x10", "DEFZ": "0"}]
+
+
+EMPTY = -1     # program index of the source that emits no byte at all (definitions and a label only)
 
 
 def label_names(ndef: int, k: int) -> list[str]:
     """the label definitions the template makes outside loop iterations, with multiplicity (by construction)"""
+    if k == EMPTY:
+        return ["start"]
     names = ["start"] + (["flagged"] if ndef >= 2 else []) + ["local", "local"]
     names += {1: [], 2: ["entry", "entry2"], 3: ["inner"], 0: []}[k % 4]
     names += ["edge", "crossed"] + (["ram_code"] if k % 2 else []) + ["after"]
@@ -26,11 +31,14 @@ def label_names(ndef: int, k: int) -> list[str]:
 
 def program(mapping: str, ndef: int, k: int) -> str:
     a, edge, other = ORG[mapping]
+    if k == EMPTY:
+        return f"*=0x{a:06x}\nstart:\nvalue = 5\nother := 6\n"
     lines = [f"*=0x{a:06x}", "start:", "lda.w #0x1234", "sta.l start"]
     if ndef >= 1:
         lines += [".dw DEFV", "lda.w #DEFV + 1", "derived = DEFV & 0xff", ".db derived"]
     if ndef >= 2:
-        lines += [".if DEFF {", ".db 0x11", "flagged:", "} else {", ".db 0x22", "}", ".db DEFN + 0x20"]
+        lines += [".if DEFF {", ".db 0x11", "flagged:", "} else {", ".db 0x22", "}", ".db DEFN + 0x20",
+                  ".if DEFZ {", ".db 0x33", "} else {", ".db 0x44", "}", ".db DEFZ + 3"]
     else:
         lines += [".if UNDEFINED_FLAG {", ".db 0x11", "} else {", ".db 0x22", "}"]
     lines += [".macro put(v) {", "local:", ".dl v", ".dw local", "}", "put(start)", "put(after)"]
@@ -70,7 +78,7 @@ def run(ctx) -> None:
         raise tlc.TLCFailure("GenC12 produced too few lattice points")
     tasks, meta = [], []
     for pt in points:
-        for k in range(nprog):
+        for k in list(range(nprog)) + [EMPTY]:
             defs = DEFS[pt["ndef"]]
             src = program(pt["mapping"], pt["ndef"], k)
             tasks.append({"entry": pt["entry"], "src": src, "format": pt["format"], "mapping": pt["mapping"], "header": pt["header"],
